@@ -704,7 +704,7 @@ func (c *fnCtx) blockInfo(b *cfg.Block) *blockInfo {
 			}
 		}
 		bi.variants = next
-		if len(bi.variants) > 4096 {
+		if len(bi.variants) > c.e.MaxPth {
 			c.trunc = true
 			break
 		}
